@@ -302,7 +302,7 @@ def _first_evaluated(e):
             return None
 
 
-def normalise_loops(stmts: list, plumbing=False) -> list:
+def normalise_loops(stmts: list, plumbing=False, no_fuse=None) -> list:
     """Three loop idioms are rewritten into the comprehension form they are equivalent to, so that writing them either
     way gives the same translation (the loop variable must not be used after the loop):
       for x in it: (if not c: return False) ; return True        ->  return all(c for x in it)
@@ -358,6 +358,8 @@ def normalise_loops(stmts: list, plumbing=False) -> list:
             elif not s.orelse and nxt and isinstance(nxt[0], ast.Return) and nxt[0].value is not None \
                     and len(stmts) == i + 2:
                 other, used = nxt[0].value, 2
+            if other is not None and no_fuse is not None and (no_fuse(s.body[0].value) or no_fuse(other)):
+                other = None        # round 9: a branch calls a translated method: it must stay a statement (hoisting)
             if other is not None:
                 out.append(ast.Return(value=ast.IfExp(test=s.test, body=s.body[0].value, orelse=other)))
                 i += used
@@ -403,6 +405,7 @@ class Tr:
         self.inline_depth = 0       # nesting of inlined module-level single-return helpers
         self.block_helpers = set()
         self.nested_fns, self.stateful = {}, ()        # round 3: set by translate_function
+        self.extern_ops = {}                            # round 9: {"Mult": "mul"}: operators that are externals
         self.helpers = {s.name: s for s in fn.body if isinstance(s, ast.FunctionDef)}
         # helpers that are to be externals although they could be inlined (string parsing, …): given as
         # (name, position among the nested defs); found by name, or - after a renaming - by position
@@ -496,6 +499,9 @@ class Tr:
                     raise TranslationError(f"{e.value.id}.{e.attr}: no such enum member")
                 return ("lit", ("enum", e.value.id, e.attr))
             return ("attr", rec(e.value), e.attr)
+        if isinstance(e, ast.BinOp) and self.orch and type(e.op).__name__ in self.extern_ops:
+            # round 9: an operator on values PyLite has no arithmetic for (numpy arrays): the external `mul(a, b)` …
+            return ("ext", self.extern_ops[type(e.op).__name__], [rec(e.left), rec(e.right)])
         if isinstance(e, ast.BinOp):
             if type(e.op) not in _BINOP:
                 raise TranslationError(f"unsupported operator {type(e.op).__name__}")
@@ -1233,7 +1239,8 @@ class Tr:
         return out
 
     def block(self, stmts) -> list:
-        stmts = normalise_loops([s for s in stmts if not _is_docstring(s)], self.plumbing)
+        stmts = normalise_loops([s for s in stmts if not _is_docstring(s)], self.plumbing,
+                                (lambda n: any(self.is_mcall(x) for x in ast.walk(n))) if self.orch else None)
         stmts = self.single_use_locals(stmts)
         for k, s in enumerate(stmts):
             m = self.mutation(s)
@@ -1899,7 +1906,7 @@ def constructor_as_function(fn: ast.FunctionDef) -> ast.FunctionDef:
 
 def translate_function(fn: ast.FunctionDef, enums, loggers=frozenset(), scoped=False, plumbing=False,
                        opaque=(), module=None, orch=False, cls=None, methods=None, meta=None,
-                       nested=None, stateful=()) -> dict:
+                       nested=None, stateful=(), extern_ops=None) -> dict:
     src_params, dflt = [p.arg for p in fn.args.args], _arg_defaults(fn.args)
     static = any(isinstance(d, ast.Name) and d.id in ("staticmethod", "classmethod") for d in fn.decorator_list)
     if plumbing and fn.name == "__init__":
@@ -1909,6 +1916,7 @@ def translate_function(fn: ast.FunctionDef, enums, loggers=frozenset(), scoped=F
         raise TranslationError(f"{fn.name}: only plain positional parameters are supported")
     tr = Tr(fn, enums, loggers, plumbing, opaque, module, orch, None if static else cls, methods, meta)
     tr.nested_fns, tr.stateful = dict(nested or {}), tuple(stateful)
+    tr.extern_ops = dict(extern_ops or {})
     for name in tr.nested_fns:         # a translated nested def is called through `callFn`, never inlined
         tr.helpers.pop(name, None)
     raw = tr.block(fn.body)
@@ -1921,7 +1929,7 @@ def translate_function(fn: ast.FunctionDef, enums, loggers=frozenset(), scoped=F
     return out
 
 
-def extract_funcs(src, funcs, scoped_comp=False, plumbing=False, opaque=None, orch=False, stateful=()) -> dict:
+def extract_funcs(src, funcs, scoped_comp=False, plumbing=False, opaque=None, orch=False, stateful=(), extern_ops=None) -> dict:
     """funcs: [(Lean name without the `Src` suffix, file, dotted path of the def inside the file)];
     scoped_comp: comprehension variables are numbered in their own scope (modules added in phase 4);
     plumbing: the phase-5 additions that could change earlier renderings (see the module docstring);
@@ -1980,7 +1988,7 @@ def extract_funcs(src, funcs, scoped_comp=False, plumbing=False, opaque=None, or
                         raise TranslationError(f"{path}: reads `{n.id}` of the enclosing function (not closed)")
             res = translate_function(fn, enums, stdlib_loggers(tree(rel)), scoped_comp, plumbing,
                                      (opaque or {}).get(lean, ()), tree(rel), True, cls, methods.get(key, {}), meta,
-                                     nested, stateful)
+                                     nested, stateful, extern_ops)
             meta[lean] = res.pop("meta")
             if key is not None and fn.name != "__init__":
                 methods.setdefault(key, {})[fn.name] = lean
